@@ -40,10 +40,10 @@ Proof.
     + repeat split; auto using prefix_refl.
 Qed.
 
-Theorem inv2_step s s' : inv1 s -> inv2 s -> Overlap s' -> step s s' -> inv2 s'.
+Theorem inv2_step_ok s s' : inv1 s -> inv2 s -> NoClash s s' -> CommitOK s s' -> step s s' -> inv2 s'.
 Proof.
-  intros I J O H.
-  pose proof (inv1_step s s' I O H) as I'.
+  intros I J O CO H.
+  pose proof (inv1_step_nc s s' I O H) as I'.
   pose proof (step_hist_le s s' I O H) as HL.
   assert (GCm : gcommit s' = gcommit s -> gcommit s' = [] \/ cpre s' (gcommit s')).
   { intros E. rewrite E. destruct (i_GC J) as [?|HC]; auto. right. eapply (cpre_mono s s'); eauto. }
@@ -64,8 +64,7 @@ Proof.
     { destruct (i_T1 I _ H0) as [HT _]. exists (voters (conf (nodes s c))), (cur (nodes s c)), k. simpl.
       rewrite <- HT. repeat split; auto. apply term_at_endst; auto. }
     assert (Hcmp : prefix (gcommit s) P \/ prefix P (gcommit s)).
-    { destruct (i_GC J) as [E|HC]; [left; rewrite E; apply prefix_nil|].
-      eapply (cpre_comparable _ _ _ I' O); [|exact HP]. eapply (cpre_mono s); eauto. }
+    { pose proof (CO c H0) as X. simpl in X. rewrite upd_same in X. simpl in X. apply X; auto. }
     destruct (longer_cases _ _ Hcmp) as [Hg [Hp Hor]].
     constructor; simpl.
     + destruct Hor as [E|E]; fold P; rewrite E.
@@ -81,4 +80,29 @@ Proof.
     intros j0. simpl. upd_destr; auto. apply (i_APP J).
   - (* AppRestart *)
     intros j0. simpl. upd_destr; auto; [|apply (i_APP J)]. pose proof (i_APP J j). lia.
+Qed.
+
+(* under the overlap hypothesis every step commits comparably (leader completeness) *)
+Lemma overlap_commitok s s' : inv1 s -> inv2 s -> Overlap s' -> step s s' -> CommitOK s s'.
+Proof.
+  intros I J O H.
+  pose proof (inv1_step s s' I O H) as I'.
+  pose proof (step_hist_le s s' I (overlap_noclash s s' I O H) H) as HL.
+  intros c0 Hl Hl' Hlt. inv_step H; try subst n; simpl in *; upd_destr; try lia; try congruence.
+  - (* AdvanceCommit *)
+    set (P := firstn k (log (nodes s c))).
+    assert (HP : cpre (mkG (upd (nodes s) c (mkN (cur (nodes s c)) (vote (nodes s c)) Leader (log (nodes s c))
+                               (snapi (nodes s c)) k (conf (nodes s c))))
+                          (camps s) (grants s) (leaders s) (tlogs s) (acks s)
+                          (longer (gcommit s) P) (voters (conf (nodes s c)) :: quorums s) (app s)) P).
+    { destruct (i_T1 I _ Hl) as [HT _]. exists (voters (conf (nodes s c))), (cur (nodes s c)), k. simpl.
+      rewrite <- HT. repeat split; auto. apply term_at_endst; auto. }
+    destruct (i_GC J) as [E|HC]; [left; rewrite E; apply prefix_nil|].
+    eapply (cpre_comparable _ _ _ I' O); [|exact HP]. eapply (cpre_mono s); eauto.
+  - (* LearnCommit *) right. assumption.
+Qed.
+
+Theorem inv2_step s s' : inv1 s -> inv2 s -> Overlap s' -> step s s' -> inv2 s'.
+Proof.
+  intros I J O H. apply (inv2_step_ok s s' I J (overlap_noclash s s' I O H) (overlap_commitok s s' I J O H) H).
 Qed.
